@@ -144,6 +144,23 @@ def kernel_candidates(prog, f, call):
                         names.add(v.id)
     except Exception:
         pass
+    lams = [v for v in ([rf] if isinstance(rf, ast.Lambda) else [])]
+    try:
+        for pf in fpaths(prog, f):
+            for ce in pf.calls:
+                if ce.raw is call or (getattr(ce.raw, "lineno", None) == getattr(call, "lineno", -1) and dotted(ce.raw.func) == dotted(call.func)):
+                    v = kw(ce.call, "raw_func", 1)
+                    if isinstance(v, ast.Lambda):
+                        lams.append(v)
+    except Exception:
+        pass
+    for lam in lams:
+        # the normaliser turned a reference to a one-expression nested kernel into the lambda it denotes (N2b): map it back to the def
+        lp = [a.arg for a in lam.args.args]
+        same = [nm for nm, g in f.nested.items() if [p for p in g.params] == lp]
+        exact = [nm for nm in same if any(isinstance(s_, ast.Return) and s_.value is not None and ast.dump(s_.value) == ast.dump(lam.body) for s_ in f.nested[nm].node.body)]
+        pick = exact or (same if len(same) == 1 else [])
+        names.update(pick)
     out = [f.nested[n] for n in sorted(names) if n in f.nested]
     for n in sorted(names):
         if n not in f.nested:
@@ -239,6 +256,10 @@ def kernel_typing(ck, rule, only=None, note_events=None):
     ck.extra["kernels_typed"] = len(results)
     if only is None and n_k < 18:
         raise AnalysisError("only %d raw kernels found (expected >= 18)" % n_k)
+    if only is not None:
+        missing = [nm for nm in only if nm != "pow" and nm not in set(KERNEL_PUB.values())]
+        if missing:
+            raise AnalysisError("no raw kernel found for %s (a rule that matches nothing never passes)" % ", ".join(missing))
     return results
 
 
@@ -314,13 +335,15 @@ def single_quantization(ck, rule, results, only=None):
         f = ck.prog.funcs[q]
         if only is not None and pub_name(f) not in only:
             continue
-        badev = [e for e in events if e[0] in ("intcast", "round", "adjust", "recast")] + ([e for e in events if e[0] == "clamp"] if pub_name(f) not in ("clip", "fxp_max", "fxp_min") else [])
+        badev = [e for e in events if e[0] in ("intcast", "round", "adjust", "recast")] + ([e for e in events if e[0] == "clamp"] if pub_name(f) not in ("clip", "fxp_max", "fxp_min") else []) \
+            + ([e for e in events if e[0] == "floorshift"] if pub_name(f) not in ("pow",) else [])
         # cumprod's int_array over the list of conversion factors is a Pow2 list, not a code: events only record casts of codes
         ck.check(not badev, rule, f, "the kernel result reaches the sink without an intermediate rounding or integer cast",
                  "%s applied inside the kernel: %s" % (badev[0][0], src(badev[0][1])[:90]) if badev else "", pf.ret_stmt,
                  {"intcast": "a truncation before the sink's own rounding makes floor/ceil/around results wrong (double quantization)",
                   "round": "a second rounding besides the sink's", "adjust": "a number of LSBs is added to the code inside the kernel (a hand-made rounding): the exact quotient/result is altered before the sink quantizes it",
                   "clamp": "an operand or the result is clamped/selected inside the kernel: the exact result is replaced before the sink can flag and quantize it",
+                  "floorshift": "operand codes are shifted right (floored) to a coarser binary point before they are combined: the dropped bits never reach the sink's rounding, so every mode behaves like floor on each operand (and raw differs from repr)",
                   "recast": "re-casting operand codes to another machine integer type reinterprets negative codes (int64 -> uint64 wraps) or narrows them"}.get(badev[0][0]) if badev else None)
 
 
